@@ -18,6 +18,24 @@ def code_rows(seq, law='lin'):
         return {'raised': repr(ex)}
 
 
+UNIT = 2.0 ** -30      # a second load unit (exact dyadic factor): every step of the integer lattice is then far below 1e-8 and far above 1e-12
+
+
+def code_rows_unit(seq, unit=UNIT):
+    """The same history expressed in another load unit; rows are brought back to the integer lattice (exact)."""
+    try:
+        det = hcm.two_pass([unit * float(x) for x in seq], 'lin')
+        c = det.recorder.collective
+        rows = []
+        for i in range(len(c)):
+            lo, hi = float(c['loads_min'].iloc[i]) / unit, float(c['loads_max'].iloc[i]) / unit
+            rows.append({'loads_min': int(lo) if lo == int(lo) else lo, 'loads_max': int(hi) if hi == int(hi) else hi,
+                         'closed': bool(c['is_closed_hysteresis'].iloc[i]), 'run': int(c['run_index'].iloc[i])})
+        return {'rows': rows}
+    except Exception as ex:
+        return {'raised': repr(ex)}
+
+
 def c04_verdict(p, per):
     """Property-level predicate D on the observed recorder content. per = list of (min,max) of the periodic rainflow."""
     if 'raised' in p:
@@ -93,6 +111,13 @@ def _replay_blocks(blocks):
             exp = [(w['lmin'], w['lmax'], w['closed'], w['run']) for w in out['rows']]
             if got != exp:
                 drift.append('sequence %s: recorder rows %s, model %s (C04 predicate holds on both)' % (list(s), got, exp))
+        if n % 3 == 0 and not bad:
+            # ScaleInvariantDecisions (MC_HCM): the proportional history in a 2^30 times larger load unit counts the same hystereses
+            pu = code_rows_unit(s)
+            badu = c04_verdict(pu, per)
+            if badu:
+                viol.append((badu + ' (loads expressed in a 2^30 times larger unit)', {'sequence': list(s), 'load_unit_factor': UNIT}, {'periodic_cycles': sorted(per)},
+                             [(r['loads_min'], r['loads_max'], r['closed'], r['run']) for r in pu.get('rows', [])] if 'rows' in pu else pu))
         if len(per) >= 2:
             nontriv.append(s)
         if not samples and len(per) >= 3:
@@ -231,10 +256,10 @@ def run(chk):
     chk.violations = keep
     chk.cov['rule'] = ('TLC enumerates every load sequence over Vals up to MaxLen (>= 2 distinct values) through process_hcm_first/second of the spec and checks '
                        'SecondPass = rainflow of the periodic reversal sequence; every sequence is replayed into FKMNonlinearDetector (exact linear law) and the '
-                       'recorder content is judged by the same definition-level predicate. Non-trivial = periodic sequence closes >= 2 hystereses. '
+                       'recorder content is judged by the same definition-level predicate (every third sequence also in a second load unit, factor 2^-30). Non-trivial = periodic sequence closes >= 2 hystereses. '
                        'Recorded longer sequences and their non-reversal refinements are validated by Trace_HCM.tla (model conformance + C04 on the logged rows).')
     chk.cov['exhaustive'] = True
-    chk.assumptions += ['integer loads: the 1e-12 comparison tolerances of the code do not act', 'injected exact linear law object (the detector accepts any law object)',
+    chk.assumptions += ['integer loads (and the same loads times 2^-30): the 1e-12 comparison tolerances of the code do not act', 'injected exact linear law object (the detector accepts any law object)',
                         'single assessment point (multi-point decisions are covered by C05)']
 
 
